@@ -461,6 +461,45 @@ def strategies(ctx):
         # hand-written loop with an accumulator, or a differently structured pipeline (fused filter_map, fold, ..). Deciding "the
         # fullest target below capacity" for an arbitrary implementation is a verification problem, not a shape; the rule says so
         # instead of guessing
+        # even without recognising the whole selection, the capacity clause can be read off: every test against self.max_players
+        # must exclude a target that is exactly full (strict `players < max` / `max > players`); `<=`, `checked_sub` (Some(0) when
+        # full) or `saturating_sub` admit a full target
+        bodies = [pb]
+        i0 = 0
+        while i0 < len(bodies):
+            for c0 in ctx.prog.children(bodies[i0].key):
+                if c0 not in bodies:
+                    bodies.append(c0)
+            i0 += 1
+        strict, loose = [], []
+        for b0 in bodies:
+            a0 = ctx.an(b0)
+            for blk in b0.blocks:
+                if blk.cleanup:
+                    continue
+                for si, st0 in enumerate(blk.stmts):
+                    if st0.kind == "assign" and st0.rv.k == "binop" and st0.rv.j["op"] in ("Lt", "Le", "Gt", "Ge") and not b0.is_noise(st0):
+                        l0, r0 = a0.operand_expr(st0.rv.ops[0], (blk.idx, si), 0), a0.operand_expr(st0.rv.ops[1], (blk.idx, si), 0)
+                        lm = bool(find_all(l0, lambda y: y[0] == "field" and y[2] == "max_players"))
+                        rm = bool(find_all(r0, lambda y: y[0] == "field" and y[2] == "max_players"))
+                        if lm == rm:
+                            continue
+                        op = st0.rv.j["op"]
+                        # normalise to "players OP max"
+                        if lm:
+                            op = {"Lt": "Gt", "Gt": "Lt", "Le": "Ge", "Ge": "Le"}[op]
+                        (strict if op in ("Lt", "Ge") else loose).append("%s@%s" % (op, b0.site(st0)))
+                t0 = blk.term
+                if t0.kind == "call" and not b0.is_noise(t0):
+                    nm0 = (cname(t0) or dname(t0)).split("::")[-1]
+                    if nm0 in ("checked_sub", "saturating_sub", "wrapping_sub", "abs_diff", "cmp", "partial_cmp", "min", "max") and \
+                            any(find_all(arg(a0, blk.idx, t0, k), lambda y: y[0] == "field" and y[2] == "max_players") for k in range(len(t0.args))):
+                        loose.append("%s@%s" % (nm0, b0.site(t0)))
+        if loose:
+            ctx.fail(R, "C18/strategies/fill-below-capacity", pb.loc,
+                     "the capacity test of PlayerFill::select is %s: a target whose player count EQUALS max_players is admitted (the statement requires "
+                     "the chosen target to be below the configured capacity)" % sorted(set(loose)))
+            return
         ctx.undecided(R, "C18/strategies/fill-chain", pb.loc,
                       "PlayerFill::select is not the reference pipeline iter().map(count).filter(<max).max_by_key(count).map(clone) nor that pipeline with "
                       "an adaptor exchanged (result built by %s); the selection rule (fullest target strictly below max_players, last wins on ties) is "
